@@ -6,7 +6,7 @@ use crate::ug::ast::*;
 use crate::ug::build::*;
 use serde_json::{Value, json};
 
-pub const RECEIVERS: [&str; 7] = ["int32", "string", "bool", "S", "E2", "Box[int32]", "Box[string]"];
+pub const RECEIVERS: [&str; 11] = ["int32", "string", "bool", "S", "E2", "Box[int32]", "Box[string]", "float64", "int8", "uint64", "unit"];
 pub const KINDS: [&str; 7] = ["inherent", "trait-one-impl", "trait-two-impls", "two-traits-same-name", "dyn-containers", "dyn-builtin-containers", "dyn-direct"];
 
 fn rty(name: &str) -> Ty {
@@ -14,6 +14,10 @@ fn rty(name: &str) -> Ty {
         "int32" => Ty::i32(),
         "string" => Ty::Str,
         "bool" => Ty::Bool,
+        "float64" => Ty::F64,
+        "int8" => Ty::Int(IntKind::I8),
+        "uint64" => Ty::Int(IntKind::U64),
+        "unit" => Ty::Unit,
         "S" => Ty::named("S"),
         "E2" => Ty::named("E2"),
         "Box[int32]" => Ty::Named("Box".into(), vec![Ty::i32()]),
@@ -26,6 +30,11 @@ fn rval(name: &str, k: i128) -> E {
         "int32" => int(10 + k),
         "string" => s(&format!("r{}", k)),
         "bool" => E::Bool(k % 2 == 0),
+        // whole-number float literals: Go prints them without a fraction, where they look like integers
+        "float64" => E::Float(format!("{}.0", 2 + k), false, false),
+        "int8" => E::Int(3 + k, IntKind::I8, true),
+        "uint64" => E::Int(5 + k, IntKind::U64, true),
+        "unit" => E::Unit,
         "S" => E::StructLit("S".into(), vec![("a".into(), int(20 + k))], vec![]),
         "E2" => E::Ctor("E2".into(), "Y".into(), false, vec![E::Bool(k % 2 == 1)], vec![]),
         "Box[int32]" => E::StructLit("Box".into(), vec![("v".into(), int(30 + k))], vec![Ty::i32()]),
@@ -39,6 +48,10 @@ fn rdesc(name: &str, e: E) -> E {
         "int32" => i2s(e),
         "string" => e,
         "bool" => bi("bool_to_string", vec![e]),
+        "float64" => bi("float64_to_string", vec![e]),
+        "int8" => bi("int8_to_string", vec![e]),
+        "uint64" => bi("uint64_to_string", vec![e]),
+        "unit" => bi("unit_to_string", vec![e]),
         "S" => add(s("S"), i2s(E::Field(Box::new(e), "a".into()))),
         "E2" => s("E2"),
         "Box[int32]" => add(s("Bi"), i2s(E::Field(Box::new(e), "v".into()))),
@@ -89,7 +102,7 @@ pub fn build(kind: &str, recv: &str, other: &str, nargs: usize) -> Option<Progra
     match kind {
         "inherent" => {
             // impl block: for generic Box instances the impl is on the concrete instance type
-            if matches!(recv, "int32" | "string" | "bool" | "Box[int32]" | "Box[string]") {
+            if matches!(recv, "int32" | "string" | "bool" | "float64" | "int8" | "uint64" | "unit" | "Box[int32]" | "Box[string]") {
                 return None; // inherent impls on primitives are builtin-only; impls on one instance of a generic type are not claimed
             }
             let for_ty = rty(recv);
@@ -268,7 +281,7 @@ impl Family for Methods {
         &["C17", "C01", "C02", "C03", "C04"]
     }
     fn rule(&self) -> &'static str {
-        "receiver types {int32,string,bool,S,E2,Box[int32],Box[string]} x 0-2 extra arguments x {inherent, trait with one impl, trait with impls for two receiver types, two traits with the same method name, dyn values through a destructured tuple, a struct field and an enum payload, a literal / constructor expression coerced to dyn directly, dyn values read back through array_get/vec_get (may be rejected: inference limitation, tagged)}; each program calls every applicable form (x.m(a), T::m(x,a), Tr::m(x,a), through a T: Tr bound in dot and path form, Tr::m(d,a) on the value coerced to dyn Tr) and prints each result; 8 + 30 negative programs (dyn coercion without impl, ambiguous method under two bounds/traits, unsatisfied bound, unknown method, standalone method value; the same method name in two traits at every pair of arities 0..2 called in dot form through two bounds and on a concrete receiver with every fitting argument count) that must be rejected with a diagnostic. non-trivial = programs with >= 2 impls; distinct = distinct source text"
+        "receiver types {int32,string,bool,S,E2,Box[int32],Box[string],float64,int8,uint64,unit} x 0-2 extra arguments x {inherent, trait with one impl, trait with impls for two receiver types, two traits with the same method name, dyn values through a destructured tuple, a struct field and an enum payload, a literal / constructor expression coerced to dyn directly, dyn values read back through array_get/vec_get (may be rejected: inference limitation, tagged)}; each program calls every applicable form (x.m(a), T::m(x,a), Tr::m(x,a), through a T: Tr bound in dot and path form, Tr::m(d,a) on the value coerced to dyn Tr) and prints each result; 8 + 30 negative programs (dyn coercion without impl, ambiguous method under two bounds/traits, unsatisfied bound, unknown method, standalone method value; the same method name in two traits at every pair of arities 0..2 called in dot form through two bounds and on a concrete receiver with every fitting argument count) that must be rejected with a diagnostic. non-trivial = programs with >= 2 impls; distinct = distinct source text"
     }
     fn cases(&self, _tier: Tier) -> Box<dyn Iterator<Item = Value> + '_> {
         let mut v = Vec::new();
